@@ -107,3 +107,22 @@ contract(f"{DP}::from_3d_numpy_to_nested", "C15,C16", cases=["series-cells", "nu
          ensures=[("returns-the-table-it-filled", lambda A, r: r.__class__.__name__ == "STable")],
          frame=lambda A: [A.X],
          notes=["default column names; the DataFrame is an accumulator of column writes (pandas side: recorded events only)"])
+
+
+# ----------------------------------------------------------------------------- the time index of a panel is the LAST axis, whatever the container
+def _gti_inputs(B, case):
+    if case == "array-3d":
+        return {"X": _x3(B)}
+    n, t = B.int("n_instances", 1), B.int("n_timepoints", 1)
+    return {"X": B.arr("X2", shape=(n, t), dtype="real")}
+
+
+def _gti_post(A, r):
+    T = A.X.shape[-1]
+    return And(isinstance(r, SArr) and r.kind == "RangeIndex", Eq(r.len, T), Eq(r.fn(0) if not isinstance(T, int) or T > 0 else 0, 0))
+
+
+contract(f"{DP}::_get_time_index", "C15,C16", cases=["array-3d", "array-2d"], inputs=_gti_inputs,
+         ensures=[("range-over-the-time-points-(last-axis)", _gti_post)],
+         notes=["array containers: the time index is RangeIndex(n_timepoints) -- the same axis a nested DataFrame's cells are indexed by; "
+                "nested input (X.iloc[0, 0].index) is pandas, bounded tier"])
